@@ -45,4 +45,4 @@ def run(ck):
     return vlib.finish_with_broken(ck, trusted=vlib.TRUSTED_COMMON + ["translator/gen_lockcfg.py (clang AST -> structured lock programs)"])
 
 def replay(ck, path):
-    print(open(path).read()); return 0
+    return vlib.replay_generic(ck, path)
